@@ -65,7 +65,17 @@ def build_ops(seed):
                     pl = key[2:3] + pl[1:]
                 for pbf in (True, False):
                     ops.append(("ctor", key[0:1], key[1:2], mode, pl, pbf))
-            ops.append(("kw", key[0:1], name, mode))
+            try:
+                from contracts.oracle import parse_def, Group
+                counts = tuple(sorted({e.count for e in parse_def(defn) if isinstance(e, Group) and isinstance(e.count, str)
+                                       and e.count != "None"}))
+            except Exception:  # noqa
+                counts = ()
+            cname = pyubx2.UBX_CLASSES.get(key[0:1])
+            if cname is None:
+                continue
+            ops.append(("kw", cname, name, mode, counts))
+            ops.append(("kw", cname, name, mode, counts))  # twice: the holder of the first may change its list values
             if pls:
                 ops.append(("parse", key[0:1], key[1:2], mode, pls[-1]))
     # unknown classes / IDs, short and long payloads
@@ -99,9 +109,16 @@ def run_op(op):
             pub = [(k, repr(v)) for k, v in m.__dict__.items() if not k.startswith("_")]
             return repr((str(m), repr(m), m.serialize().hex(), m.identity, pub))
         if kind == "kw":
-            _, c, name, mode = op
-            m = UBXMessage(c, name, mode)
-            return repr((str(m), m.serialize().hex()))
+            _, c, name, mode, counts = op
+            # nominal values for everything, one repeat of every counted group
+            m = UBXMessage(c, name, mode, unusedkeyword=0, **{k: 1 for k in counts})
+            res = repr((str(m), m.serialize().hex()))
+            # what a holder of the message may legitimately do afterwards: change a list it was handed (array
+            # attributes are plain lists).  No later result may depend on that.
+            for k, v in list(m.__dict__.items()):
+                if isinstance(v, list) and not k.startswith("_"):
+                    v.append(7)
+            return res
         if kind == "parse":
             _, c, i, mode, pl = op
             raw = UBXMessage(c, i, mode, payload=pl).serialize()
